@@ -6,8 +6,8 @@ import os, sys, json, hashlib, subprocess, re, time, fcntl
 
 HERE = os.path.dirname(os.path.abspath(__file__))
 BUILD = os.path.join(HERE, "build")
-ORDER = ["Basic", "Bellman", "Bounds", "GaussSeidel", "Average", "Engine", "Chain"]
-DEPS = {"Basic": [], "Bellman": ["Basic"], "Bounds": ["Basic"], "GaussSeidel": ["Basic"], "Average": ["Basic"], "Engine": [], "Chain": ["Basic", "Bounds"]}
+ORDER = ["Basic", "Bellman", "Bounds", "GaussSeidel", "Average", "Engine", "Events", "Chain"]
+DEPS = {"Basic": [], "Bellman": ["Basic"], "Bounds": ["Basic"], "GaussSeidel": ["Basic"], "Average": ["Basic"], "Engine": [], "Events": [], "Chain": ["Basic", "Bounds"]}
 FORBIDDEN = re.compile(r"\b(sorry|admit|native_decide|axiom|unsafe|implemented_by|extern)\b")
 
 
